@@ -124,7 +124,10 @@ def check_case(case):
     for reify in (True, False):
         what = "parse(reify=%s, %s) of %s" % (reify, {a: b for a, b in kw.items() if a != "ppi"}, xml)
         try:
-            d = svg.SVG.parse(io.StringIO(xml), reify=reify, **kw)
+            kwc = dict(kw)
+            if "transform" in kwc and k % 3 == 2:
+                kwc["transform"] = svg.Matrix(kwc["transform"])         # the caller's transform as a Matrix object
+            d = svg.SVG.parse(io.StringIO(xml), reify=reify, **kwc)
             shapes = shapes_of(d)
         except engine.CaseTimeout:
             raise
